@@ -528,6 +528,11 @@ def run(ctx, name, kind, **kw):
                 for _d in S.enumerate_delays(run_once, 2, kw["limit2"], rng):
                     if ctx.expired():
                         break
+                # and with the roles exchanged (the OTHER operation is the one that is suspended once)
+                sc.plans[0], sc.plans[1] = sc.plans[1], sc.plans[0]
+                for _d in S.enumerate_delays(run_once, 1, None, None):
+                    if ctx.expired():
+                        break
         if kind in ("stores", "stores_prod"):
             pass
         elif kind == "systematic":
@@ -553,9 +558,11 @@ def run(ctx, name, kind, **kw):
                 sc = Scenario(rng, curve, dom, 2)
                 a0, a1 = sc.plans[0][0][1], sc.plans[1][0][1]
                 sc.plans[0] = [(rng.choice(("precompute", "precompute_lazy")), a0, 0)]
-                sc.plans[1] = [(rng.choice(("verify", "verify", "to_string", "sign", "precompute_lazy", "verify")), a1, 0)]
+                sc.plans[1] = [(rng.choice(("verify", "verify", "to_string", "sign", "precompute_lazy", "verify", "pickle_vk", "copy_vk", "deepcopy_sk", "pickle_vk")), a1, 0)]
                 if rng.random() < 0.5:
                     sc.plans[1].append((rng.choice(("verify", "to_string")), a1, 0))
+                if rng.random() < 0.5:
+                    sc.plans[0], sc.plans[1] = sc.plans[1], sc.plans[0]          # the key operation is the one that gets suspended, precompute runs in the gap
 
                 def run_once(delays):
                     dec = S.delay_decider(delays)
